@@ -229,24 +229,20 @@ def tlc_gen(ctx, module, cfg, out_edges, cfgobj=None, timeout=900, xmx="6g", tag
     return {"edges": n, "states": len(ids), "tlc": r}
 
 
-def tlc_sim(ctx, module, cfg, out_traces, num, depth, cfgobj=None, timeout=900, tag=None):
-    """Random behaviours from the spec: `tlc -simulate` with the edge-printing ACTION_CONSTRAINT (no state CONSTRAINT in
-    the Sim cfg). The simulator evaluates the ACTION_CONSTRAINT for every candidate successor of the current state, so the
-    output is a sequence of batches (same source state); the successor taken is the one the next batch starts from.
-    TLC's output (gigabytes for large alphabets) is parsed as it is produced and never stored."""
+def _tlc_sim_chunk(ctx, module, cfg, o, num, depth, seed, timeout, tag):
+    """One TLC simulation process; behaviours are appended to the open file o. Returns (behaviours, steps)."""
     tag = tag or os.path.splitext(os.path.basename(cfg))[0]
     md = ctx.path("md_" + tag + "_%d" % int(time.time() * 1000 % 1e9))
     cmd = ["timeout", str(timeout)] + _java_cmd("4g", None, False)
     cmd += ["-workers", "1", "-metadir", md, "-cleanup", "-noGenerateSpecTE",
-            "-simulate", "num=%d" % num, "-depth", str(depth), "-seed", str(ctx.seed),
+            "-simulate", "num=%d" % num, "-depth", str(depth), "-seed", str(seed),
             "-config", os.path.join(SPEC, cfg), os.path.join(SPEC, module)]
     t0 = time.time()
     p = subprocess.Popen(cmd, cwd=SPEC, stdout=subprocess.PIPE, stderr=subprocess.STDOUT, text=True, bufsize=1 << 20)
     ntr, nst = 0, 0
     other = []            # the last non-edge lines (TLC's own messages)
     errors = []
-    with open(out_traces, "w") as o:
-        o.write(json.dumps({"cfg": cfgobj or {}}) + "\n")
+    if True:
         init = None
         cur = []          # steps of the behaviour being assembled
         batch, bsrc = [], None
@@ -301,8 +297,27 @@ def tlc_sim(ctx, module, cfg, out_traces, num, depth, cfgobj=None, timeout=900, 
     if ntr == 0:
         sys.stdout.write("\n".join(other[-40:]) + "\n")
         raise ToolError("simulation produced no behaviours: %s" % cfg)
+    return ntr, nst, wall
+
+
+def tlc_sim(ctx, module, cfg, out_traces, num, depth, cfgobj=None, timeout=900, tag=None, chunk=1500):
+    """Random behaviours from the spec: `tlc -simulate` with the edge-printing ACTION_CONSTRAINT (no state CONSTRAINT in
+    the Sim cfg). The simulator evaluates the ACTION_CONSTRAINT for every candidate successor of the current state, so the
+    output is a sequence of batches (same source state); the successor taken is the one the next batch starts from.
+    TLC's output (gigabytes for large alphabets) is parsed as it is produced and never stored; long simulations are cut
+    into processes of at most `chunk` behaviours with consecutive seeds (a single long simulation exhausts the JVM heap)."""
+    ntr = nst = 0
+    wall = 0.0
+    with open(out_traces, "w") as o:
+        o.write(json.dumps({"cfg": cfgobj or {}}) + "\n")
+        k = 0
+        while k * chunk < num:
+            n = min(chunk, num - k * chunk)
+            a, b, w = _tlc_sim_chunk(ctx, module, cfg, o, n, depth, ctx.seed * 1000 + k, timeout, tag)
+            ntr, nst, wall = ntr + a, nst + b, wall + w
+            k += 1
     ctx.cov["tlc_runs"].append({"cfg": cfg, "role": "simulation (random behaviours)", "behaviours": ntr, "steps": nst,
-                                "depth": depth, "wall_s": wall})
+                                "depth": depth, "wall_s": round(wall, 2), "processes": k})
     ctx.cov["transitions"] += nst
     return {"traces": ntr, "steps": nst}
 
